@@ -192,6 +192,22 @@ def main(pid, tier, seed):
                                           'groups': {t: [g['prob'] for g in gs] for t, gs in pcfg.grammar.items() if gs and t[0] not in 'EW'}})
             n_rew += 1
 
+    if pid == 'C08':
+        # the same wide ruleset, re-weighted in memory, quit and resumed at random pops (1-3 cycles)
+        d = os.path.join(work, 'wide')
+        ptq.wide_ruleset(d)
+        pcfg = ptq.load_pcfg(d)
+        full = None
+        for k in range(300 if tier == 'quick' else 5000):
+            full = ptq.reweight(pcfg, rng, full)
+            nn = ptq.n_nodes(ptq.sizes_of(pcfg))
+            cuts = [rng.randrange(nn) for _ in range(rng.choice([1, 1, 2, 3]))]
+            hist = ptq.run_history(pcfg, cuts, with_queue=False)
+            add(pcfg, hist, False, None, {'kind': 'wide ruleset re-weighted in memory', 'cuts': cuts,
+                                          'base': [[b['replacements'][0], b['prob']] for b in pcfg.base],
+                                          'groups': {t: [g['prob'] for g in gs] for t, gs in pcfg.grammar.items() if gs and t[0] not in 'EW'}})
+            n_rew += 1
+
     # ---- C08 through the real CrackingSession loop, save file and pcfg_guesser.load_save ----
     n_session_hist = 0
     if pid == 'C08':
@@ -384,7 +400,7 @@ def main(pid, tier, seed):
                 'non-trivial = more than one emission; distinct by emitted node/rank sequence',
         'int_grammars_from_spec': n_int, 'float_rulesets': n_float,
         'shipped_ruleset_prefix_pops': extra_prefix,
-        'determinism_pairs': len(det_jobs), 'session_level_histories': n_session_hist, 'session_level_histories_with_resume': (n_multi if pid == 'C08' else 0), 'uuid_refusal': uuid_result,
+        'determinism_pairs': len(det_jobs), 'wide_ruleset_reweightings': n_rew, 'session_level_histories': n_session_hist, 'session_level_histories_with_resume': (n_multi if pid == 'C08' else 0), 'uuid_refusal': uuid_result,
         'trace_validation': st,
         'impl_conformance': {'traces': len(itraces), 'states': ist.get('states', 0),
                              'result': 'drift' if drift else 'conforms', 'drift_examples': drift[:3]},
